@@ -4,5 +4,6 @@ CONSTANTS
   RegPeers <- MCRegPeers
   AllPeers <- MCAllPeers
   Cums <- MCCums
+  ClaimKeys <- HsKeys
 INVARIANT EmitFull
 CHECK_DEADLOCK FALSE
